@@ -58,6 +58,30 @@ def mk_peer(host, state, ip_addr=None):
     return p
 
 
+def via_session(pm, tor):
+    '''server.peers.subscribe as a client session reaches the peer manager: the real handler
+    ElectrumX.peers_subscribe on a bare session whose remote address is / is not the Tor
+    proxy's.'''
+    from aiorpcx import NetAddress
+    from electrumx.server.session import ElectrumX
+    s = ElectrumX.__new__(ElectrumX)
+    s.peer_mgr = pm
+    s.bump_cost = lambda cost: None
+    s.remote_address = lambda: NetAddress('127.0.0.1' if tor else '8.8.4.4', 12345)
+    saved = pm.proxy
+    pm.proxy = type('Proxy', (), {'address': NetAddress('127.0.0.1', 9050)})()
+    try:
+        coro = s.peers_subscribe()
+        try:
+            coro.send(None)
+        except StopIteration as e:
+            return e.value
+        coro.close()
+        raise RuntimeError('peers_subscribe suspended')
+    finally:
+        pm.proxy = saved
+
+
 def _is_name(host):
     try:
         ipaddress.ip_address(host)
@@ -194,7 +218,7 @@ def case_population(case, res):
         peersmod.random = rnd
         pm.peers = set(peers)
         try:
-            out = pm.on_peers_subscribe(case['tor'])
+            out = via_session(pm, case['tor'])
             err = None
         except Exception as e:      # noqa
             out, err = [], repr(e)
@@ -323,9 +347,20 @@ def history_events(tier):
         if n == names[0]:
             evs.append(('verify', n, 'nomethod'))
     evs.append(('verify', '23.45.1.1', 'ok'))
+    # somebody (the peer itself through server.add_peer, another peer's list) announces the peer
+    # with other ports: no verification, so no change to what may be advertised
+    evs.append(('announce', names[0]))
     evs.append(('tick',))
     evs.append(('subscribe', False))
     return evs
+
+
+class _Flag:
+    def set(self):
+        pass
+
+    def clear(self):
+        pass
 
 
 def case_history(case, res):
@@ -391,6 +426,21 @@ def case_history(case, res):
         for n, ev in enumerate(events):
             if ev[0] == 'tick':
                 clock.now += TICK
+            elif ev[0] == 'announce':
+                peer = peers[ev[1]]
+                if peer not in pm.peers:
+                    continue
+                if not hasattr(peer, 'retry_event'):
+                    peer.retry_event = _Flag()
+                from electrumx.lib.peer import Peer
+                other = Peer(ev[1], {'hosts': {ev[1]: {'tcp_port': 51001, 'ssl_port': 51002}}}, 'peer')
+                try:
+                    loop.run_coro(pm._note_peers([other], check_ports=True))
+                except Exception as e:      # noqa
+                    res.violation('history:announcement-raises', case,
+                                  dict(event=list(ev), error=repr(e)))
+                    return
+                res.count('announcements')
             elif ev[0] == 'verify':
                 host, what = ev[1], ev[2]
                 peer = peers[host]
